@@ -256,7 +256,7 @@ def build_items(ctx, quick):
     optional = [dict(id="opt:%d" % n, text=t, plain=None, mouts=None, decorated=True, inner=False, gcomments=g)
                 for n, (t, g) in enumerate([("a;\n// c\n;\nb", [" c"]), ("a; // t\n;\nb", [" t"]),
                                             ("function f() {};\n// note\n;(function(){})()", [" note"]),
-                                            ("{\n  a\n  // in\n  ;\n}", [" in"]), ("// first\n;\na", [" first"])])]
+                                            ("{\n  a;\n  // in\n  ;\n}", [" in"]), ("// first\n;\na", [" first"])])]
     und = und + empties + optional
     return huge[:1] + und + fixture_items() + big + tri + dec[:cap] + inner[:icap], len(und) + len(huge[:1]), len(dec) + len(inner) + len(tri)
 
